@@ -182,3 +182,38 @@ Section RI.
     rewrite app_nil_r in Hde. rewrite Hde by lia. reflexivity.
   Qed.
 End RI.
+
+(** Non-vacuity at the schema regenerated from /repo: a failed Create response item with every
+    optional element present (operation, batch item id, reason, message, asynchronous
+    correlation value, a Create response payload holding a template attribute, a message
+    extension) and a bare successful one (status only) conform, and their binary encoding
+    decodes back to them. *)
+From KVGen Require Import KmipSchema.
+From KV Require Import KmipCodec.
+Local Open Scope string_scope.
+Local Open Scope Z_scope.
+
+Definition ex_response_item : value :=
+  VStruct "kmip.ResponseBatchItem"
+    [VInt 1; VStr [1; 2; 3]; VInt 1; VInt 4; VStr [110; 111]; VStr [9; 9];
+     VIface (TPtr (TNamed "payloads.CreateResponsePayload"))
+       (VPtr (VStruct "payloads.CreateResponsePayload"
+          [VInt 2; VStr [105; 100; 45; 49];
+           VPtr (VStruct "kmip.TemplateAttribute"
+             [VList [];
+              VList [VStruct "kmip.Attribute"
+                       [VStr [67; 114; 121; 112; 116; 111; 103; 114; 97; 112; 104; 105; 99; 32; 76; 101; 110; 103; 116; 104];
+                        VPtr (VInt 0); VIface (TScalar KInt32) (VInt 256)]]])]));
+     VPtr (VStruct "kmip.MessageExtension" [VStr [118]; VBool true; VList [VTree (IInt 4325384 5)]])].
+Definition ex_response_item_bare : value :=
+  VStruct "kmip.ResponseBatchItem" [VInt 0; VStr []; VInt 0; VInt 0; VStr []; VStr []; VNil; VNil].
+
+Definition response_item_example_ok (v : value) : Prop :=
+  (exists sc, conf_ty kmip_schema kmip_ops kmip_attrs kmip_objs 40 (Some (1, 4)) (TNamed "kmip.ResponseBatchItem") TAG_BATCH_ITEM v = Some sc) /\
+  (do r <- enc_ty kmip_schema 40 (Some (1, 4)) (TNamed "kmip.ResponseBatchItem") TAG_BATCH_ITEM v ;;
+   do c <- bin_cursor (wire_enc_list (fst r)) ;;
+   do d <- dec_ty kmip_schema kmip_ops kmip_attrs kmip_objs bin_fmt 100 (Some (1, 4)) (TNamed "kmip.ResponseBatchItem") TAG_BATCH_ITEM c ;;
+   Ok (value_eqb (fst (fst d)) v && negb (match fst r with [] => true | _ => false end))) = Ok true.
+
+Example rt_response_item_example : response_item_example_ok ex_response_item /\ response_item_example_ok ex_response_item_bare.
+Proof. repeat split; try (eexists; vm_compute; reflexivity); vm_compute; reflexivity. Qed.
